@@ -424,6 +424,72 @@ def walk_tie():
                     "WalkGen.")
 
 
+def hook_sweep_c13(seed=0, tier="quick", cov=None):
+    """directed search used with the C13 tie: registrations and occurrences INTERLEAVED on a real Simulator - a hook registered after an
+    occurrence at some time must be called at every later occurrence it matches, that same time included; each matching hook exactly
+    once per occurrence, untimed ones first, then the timed ones, each group in registration order"""
+    import random
+    import types
+    import warnings
+    from pams.events.base import EventABC, EventHook
+    from pams.simulator import Simulator
+    warnings.filterwarnings("ignore")
+    out, n = [], 0
+    rnd = random.Random(1300 + seed)
+    kinds = {  # (hook type, before) -> (trigger method, keyword, object carrying the time)
+        ("execution", False): ("_trigger_event_after_execution", "execution_log", lambda t: types.SimpleNamespace(time=t)),
+        ("order", False): ("_trigger_event_after_order", "order_log", lambda t: types.SimpleNamespace(time=t)),
+        ("cancel", False): ("_trigger_event_after_cancel", "cancel_log", lambda t: types.SimpleNamespace(cancel_time=t, order_time=0)),
+        ("session", True): ("_trigger_event_before_session", "session", lambda t: types.SimpleNamespace(session_start_time=t, iteration_steps=1)),
+    }
+    for trial in range(60 if tier == "quick" else 600):
+        sim = Simulator(prng=random.Random(trial))
+        calls = []
+
+        class Ev(EventABC):
+            def hook_registration(self):
+                return []
+
+            def hooked_after_execution(self, simulator, execution_log):
+                calls.append(self.event_id)
+
+            def hooked_after_order(self, simulator, order_log):
+                calls.append(self.event_id)
+
+            def hooked_after_cancel(self, simulator, cancel_log):
+                calls.append(self.event_id)
+
+            def hooked_before_session(self, simulator, session):
+                calls.append(self.event_id)
+        kind = rnd.choice(list(kinds))
+        meth, kw, mk = kinds[kind]
+        registered = []          # (event id, times or None) in registration order
+        script = []
+        for step in range(rnd.randint(3, 9)):
+            if not registered or rnd.random() < 0.45:
+                times = None if rnd.random() < 0.5 else sorted(set(rnd.randint(0, 3) for _ in range(rnd.randint(0, 3))))
+                ev = Ev(event_id=len(registered), prng=random.Random(0), session=None, simulator=sim, name=f"e{len(registered)}")
+                sim._add_event(EventHook(event=ev, hook_type=kind[0], is_before=kind[1], time=times))
+                registered.append((ev.event_id, times))
+                script.append(["register", ev.event_id, times])
+            else:
+                t = rnd.randint(0, 3)
+                calls.clear()
+                getattr(sim, meth)(**{kw: mk(t)})
+                n += 1
+                want = [i for i, ts in registered if ts is None] + [i for i, ts in registered if ts is not None and t in ts]
+                script.append(["occurrence", t])
+                if list(calls) != want and len(out) < 3:
+                    out.append({"rule": "every-matching-hook-called-exactly-once-per-occurrence", "at": n,
+                                "detail": {"hook": list(kind), "script": script, "time": t, "called": list(calls), "expected": want,
+                                           "source": "interleaved registration / occurrence sweep on the real Simulator"}})
+        if len(out) >= 3:
+            break
+    if cov is not None:
+        cov["interleaved_occurrences_checked"] = n
+    return out
+
+
 def runner_tie():
     """the per-order block of SequentialRunner._handle_orders, both copies (C09, C11)"""
     import py2coq_runner
